@@ -3,14 +3,11 @@
    the refocusing pulses negate x.  `wf_desc` is the decidable well-formedness check of a description. *)
 From Coq Require Import ZArith List Bool Lia ZifyBool.
 Import ListNotations.
-From QCE Require Import Base.Prelude C09.Stim C09.Spec C09.Sem C09.Model C09.ProofsSem C09.ProofsRound.
+From QCE Require Import Base.Prelude C09.Stim C09.Spec C09.Sem C09.Model C09.Wf C09.ProofsSem C09.ProofsRound.
 Open Scope Z_scope.
 Ltac Zify.zify_post_hook ::= Z.to_euclidean_division_equations.
 
 (* ------------------------------------------------------------------ partners of a qubit in a gate list *)
-Definition partners (gates : list (Z * Z)) (q : Z) : list Z :=
-  flat_map (fun e => if fst e =? q then [snd e] else if snd e =? q then [fst e] else []) gates.
-
 Lemma xor_all_cons b l : xor_all (b :: l) = xorb b (xor_all l). Proof. reflexivity. Qed.
 
 Lemma gates_bits_partners anc data gates :
@@ -167,24 +164,6 @@ Qed.
 
 (* the shape of a chain description with d data qubits: data on even, ancillas on odd positions; every ancilla's
    parity group names its two neighbours and its gates join it to exactly these two *)
-Definition nbr_ok (a : Z) (lr : Z * Z) : bool :=
-  ((fst lr =? a - 1) && (snd lr =? a + 1)) || ((fst lr =? a + 1) && (snd lr =? a - 1)).
-Definition partners_ok (gates : list (Z * Z)) (a : Z) : bool :=
-  let p := partners gates a in
-  leqb Z.eqb p [a - 1; a + 1] || leqb Z.eqb p [a + 1; a - 1].
-
-Definition shape_ok (D : rdesc) : bool :=
-  let d := length (r_data D) in
-  (1 <=? d)%nat
-  && leqb Z.eqb (r_data D) (evens_from 0 d)
-  && leqb Z.eqb (r_anc D) (evens_from 1 (d - 1))
-  && (length (r_qubits D) =? 2 * d - 1)%nat
-  && (length (r_nbr D) =? d - 1)%nat
-  && forallb (fun an => nbr_ok (fst an) (snd an)) (combine (r_anc D) (r_nbr D))
-  && forallb (partners_ok (concat (r_gates D))) (r_anc D).
-
-Definition wf_desc (D : rdesc) : bool := layers_ok D && shape_ok D.
-
 Lemma leqb_Z_eq (l r : list Z) : leqb Z.eqb l r = true -> l = r.
 Proof.
   revert r. induction l as [|x l IH]; intros [|y r] H; simpl in H; try discriminate; [reflexivity|].
